@@ -33,7 +33,21 @@ pub const EXTRA_ROWS: &str = "\
 円,8,8,3000,円,名詞,普通名詞,助数詞可能,*,*,*,エン,円,*,A,*,*,*,*
 コーヒー,7,7,4000,コーヒー,名詞,普通名詞,一般,*,*,*,コーヒー,コーヒー,*,A,*,*,*,*
 カップ,7,7,4000,カップ,名詞,普通名詞,一般,*,*,*,カップ,カップ,*,A,*,*,*,*
+四半期,8,8,3000,四半期,名詞,普通名詞,一般,*,*,*,シハンキ,四半期,*,A,*,*,*,*
+一人,8,8,3000,一人,名詞,普通名詞,一般,*,*,*,ヒトリ,一人,*,A,*,*,*,*
+千葉,8,8,3000,千葉,名詞,固有名詞,地名,一般,*,*,チバ,千葉,*,A,*,*,*,*
+十分,8,8,3000,十分,名詞,普通名詞,一般,*,*,*,ジュウブン,十分,*,A,*,*,*,*
+三角形,8,8,3000,三角形,名詞,普通名詞,一般,*,*,*,サンカクケイ,三角形,*,A,*,*,*,*
+九州,8,8,3000,九州,名詞,固有名詞,地名,一般,*,*,キュウシュウ,九州,*,A,*,*,*,*
+万年筆,8,8,3000,万年筆,名詞,普通名詞,一般,*,*,*,マンネンヒツ,万年筆,*,A,*,*,*,*
+百貨店,8,8,3000,百貨店,名詞,普通名詞,一般,*,*,*,ヒャッカテン,百貨店,*,A,*,*,*,*
+〇印,8,8,3000,〇印,名詞,普通名詞,一般,*,*,*,マルジルシ,〇印,*,A,*,*,*,*
+と,2,2,3000,と,助詞,格助詞,*,*,*,*,ト,と,*,A,*,*,*,*
 ";
+
+/// dictionary words that BEGIN with a numeral character but continue otherwise: directly after a numeral they must not
+/// disturb it (they are not numerals: the class of the whole token is the intersection over its characters)
+pub const NUMERAL_HEADED_WORDS: [&str; 9] = ["四半期", "一人", "千葉", "十分", "三角形", "九州", "万年筆", "百貨店", "〇印"];
 
 pub fn read_repo(rel: &str) -> Vec<u8> {
     std::fs::read(format!("{}/{}", repo(), rel)).unwrap_or_else(|e| panic!("cannot read {}: {}", rel, e))
@@ -1123,6 +1137,137 @@ fn rand_group(rng: &mut Rng) -> Grp {
     }
 }
 
+
+// ------------------------------------------------------------------------------------------------ several numerals in one sentence
+#[derive(Clone, Debug)]
+enum Seg {
+    Word(String),
+    /// numeral generated from a value, with the rendering of the value
+    Good(String, String),
+    /// malformed grouping / stray separators
+    Bad(String),
+}
+
+const SENT_WORDS: [&str; 9] = ["と", "円", "に", "京都", "東京都に", "アイウ", "円と", "四半期", "一人"];
+const STRAY: [&str; 12] = [",", ".", ",,", "1,2,", "1.2.", "12,", "3.", "1,23,", ".,", "0,0,", "一,二,", "1,2.3."];
+
+fn gen_sentence(rng: &mut Rng) -> Vec<Seg> {
+    let mut v = vec![];
+    if rng.chance(1, 2) {
+        v.push(Seg::Word(rng.pick(&SENT_WORDS[..]).to_string()));
+    }
+    let n = 2 + rng.below(3) as usize;
+    for k in 0..n {
+        // state carried along the sentence: malformed groupings and stray separators BEFORE well-formed numerals
+        let bad = if k + 1 == n { rng.chance(1, 6) } else { rng.chance(1, 2) };
+        if bad {
+            let t = if rng.chance(2, 3) { rng.pick(&STRAY[..]).to_string() } else { gen_malformed(rng).text.chars().take(10).collect() };
+            if t.contains("六三四") {
+                continue;
+            }
+            v.push(Seg::Bad(t));
+        } else {
+            let w = gen_wellformed(rng);
+            if w.text.contains("六三四") || w.text.chars().count() > 24 {
+                continue;
+            }
+            v.push(Seg::Good(w.text, w.expected));
+        }
+        v.push(Seg::Word(rng.pick(&SENT_WORDS[..]).to_string()));
+    }
+    v
+}
+
+fn seg_json(v: &[Seg]) -> Value {
+    Value::Array(v.iter().map(|s| match s {
+        Seg::Word(w) => json!(["w", w]),
+        Seg::Good(t, e) => json!(["n", t, e]),
+        Seg::Bad(t) => json!(["b", t]),
+    }).collect())
+}
+
+fn seg_from_json(v: &Value) -> Vec<Seg> {
+    v.as_array().unwrap().iter().map(|x| match x[0].as_str().unwrap() {
+        "w" => Seg::Word(x[1].as_str().unwrap().to_string()),
+        "n" => Seg::Good(x[1].as_str().unwrap().to_string(), x[2].as_str().unwrap().to_string()),
+        _ => Seg::Bad(x[1].as_str().unwrap().to_string()),
+    }).collect()
+}
+
+/// one sentence with several numerals: every well-formed numeral is one token with the rendering of its value, whatever
+/// stood before it in the sentence; malformed parts are left as pieces
+fn sentence_case(sink: &mut Sink, dict: &JapaneseDictionary, segs: &[Seg], fullwidth: bool, rng: &mut Rng, verbose: bool) {
+    let mut text = String::new();
+    let mut spans = vec![]; // (byte begin, byte end, segment index)
+    for (k, s) in segs.iter().enumerate() {
+        let t = match s {
+            Seg::Word(w) => w.clone(),
+            Seg::Good(t, _) | Seg::Bad(t) => {
+                if fullwidth {
+                    fullwidth_some(t, rng).chars().map(|c| if c == ',' && rng.chance(1, 2) { '，' } else if c == '.' && rng.chance(1, 2) { '．' } else { c }).collect()
+                } else {
+                    t.clone()
+                }
+            }
+        };
+        spans.push((text.len(), text.len() + t.len(), k));
+        text.push_str(&t);
+    }
+    let d = json!({"kind": "sentence", "segments": seg_json(segs), "text": text});
+    let toks = match tokenize(dict, &text) {
+        Ok(t) => t,
+        Err(e) => {
+            let id = sink.case_rust_only(d, true);
+            sink.fail(id, &format!("analysis of {:?} failed: {}", text, e), "");
+            return;
+        }
+    };
+    if verbose {
+        for t in &toks {
+            println!("implementation token {}..{} surface={:?} normalized={:?}", t.begin, t.end, t.surface, t.norm);
+        }
+    }
+    sink.tag("pipeline:sentence_with_several_numerals");
+    let ascii = |s: &str| to_ascii_digits(s).replace('，', ",").replace('．', ".");
+    let mut terms = vec![];
+    let mut fails = vec![];
+    for (b, e, k) in &spans {
+        let inside: Vec<&Tok> = toks.iter().filter(|t| t.begin >= *b && t.end <= *e).collect();
+        let covered: usize = inside.iter().map(|t| t.end - t.begin).sum();
+        let pieces = clist(inside.iter().map(|t| cpair(&ctext(&ascii(&t.surface)), &ctext(&t.norm))));
+        match &segs[*k] {
+            Seg::Word(_) => {}
+            Seg::Good(t, x) => {
+                terms.push(format!("check_joined {} {} {}", ctext(t), pieces, ctext(x)));
+                if covered != e - b || inside.len() != 1 {
+                    fails.push(format!("well-formed numeral {:?} (value {}) was not joined into one token: {:?}", t, x, inside.iter().map(|t| t.surface.clone()).collect::<Vec<_>>()));
+                } else if inside[0].norm != *x {
+                    fails.push(format!("numeral {:?} normalised to {:?}, decimal rendering of its value is {:?}", t, inside[0].norm, x));
+                }
+            }
+            Seg::Bad(_) => {
+                terms.push(format!("check_pieces {}", pieces));
+                if covered != e - b {
+                    fails.push(format!("a token crosses the edge of {:?}", &text[*b..*e]));
+                }
+                for t in &inside {
+                    let s = ascii(&t.surface);
+                    if t.norm != s {
+                        if let Some(why) = wrong_value(&s, &t.norm) {
+                            fails.push(format!("piece {:?}: {}", t.surface, why));
+                        }
+                    }
+                }
+            }
+        }
+    }
+    let term = if terms.is_empty() { "true".to_string() } else { terms.iter().map(|t| format!("({})", t)).collect::<Vec<_>>().join(" && ") };
+    let id = sink.case(term, d, segs.iter().filter(|s| !matches!(s, Seg::Word(_))).count() > 1);
+    for f in fails {
+        sink.fail(id, &format!("{:?}: {}", text, f), "");
+    }
+}
+
 fn fullwidth_some(s: &str, rng: &mut Rng) -> String {
     s.chars().map(|c| if c.is_ascii_digit() && rng.chance(1, 2) { FULLWIDTH_DIGITS[c.to_digit(10).unwrap() as usize] } else { c }).collect()
 }
@@ -1148,11 +1293,18 @@ pub fn numeric_dict(work: &Path) -> JapaneseDictionary {
 
 pub fn run(args: &Args) {
     let mut sink = Sink::new("C15", &args.out, &["Model.Numeric", "Model.NumericCanon"], args.seed, &args.tier);
-    sink.rule("(a) numeral parser via verif_parse_numeral vs Coq model: numerals generated FROM A VALUE (plain Arabic/kanji/mixed digits up to 150 digits, comma groups, fractions with trailing zeros, unit notation 十..兆 below 10^16 with optional/positional coefficients, fraction x unit, long digit string x large unit) with the expected rendering; near-miss malformed strings (bad comma groups, dangling/double points, swapped or repeated units) with the required error state; random strings over the numeral alphabet checked against an exact fixed-point reference ('never a wrong value'); (a') canonical writings of values 0 < n < 10^16 exactly as defined in Model/NumericCanon.v (per group kanji units with written / omitted 一 and kanji / Arabic coefficients, or Arabic digits + large unit): the Coq term rebuilds the string from the value; (a'') two non-zero groups with arbitrary large units (descending, repeated, increasing): accepted iff C15_unit_order_behaviour says so, value = sum; (b) the same numerals embedded in text and analysed with a dictionary tagging digits/units as numerals and JoinNumericPlugin: one token, normalised form = rendering; malformed: pieces only; (c) the pipeline cases repeated with a StatefulTokenizer restricted to 14 word-info field subsets (with / without NORMALIZED_FORM, POS_ID, SURFACE, ...) in modes A/B/C: same boundaries as with all fields, same normalised forms when requested, well-formed numeral = one token with the expected rendering.  non-trivial = more than one character (parser) / at least one merge (pipeline)");
+    sink.rule("(a) numeral parser via verif_parse_numeral vs Coq model: numerals generated FROM A VALUE (plain Arabic/kanji/mixed digits up to 150 digits, comma groups, fractions with trailing zeros, unit notation 十..兆 below 10^16 with optional/positional coefficients, fraction x unit, long digit string x large unit) with the expected rendering; near-miss malformed strings (bad comma groups, dangling/double points, swapped or repeated units) with the required error state; random strings over the numeral alphabet checked against an exact fixed-point reference ('never a wrong value'); (a') canonical writings of values 0 < n < 10^16 exactly as defined in Model/NumericCanon.v (per group kanji units with written / omitted 一 and kanji / Arabic coefficients, or Arabic digits + large unit): the Coq term rebuilds the string from the value; (a'') two non-zero groups with arbitrary large units (descending, repeated, increasing): accepted iff C15_unit_order_behaviour says so, value = sum; (b') sentences with several numerals: malformed groupings and stray separators before well-formed numerals, every well-formed numeral must be joined with the rendering of its value whatever preceded it; dictionary words that begin with a numeral character (四半期, 一人, 千葉, 万年筆 ...) directly after numerals; (b) the same numerals embedded in text and analysed with a dictionary tagging digits/units as numerals and JoinNumericPlugin: one token, normalised form = rendering; malformed: pieces only; (c) the pipeline cases repeated with a StatefulTokenizer restricted to 14 word-info field subsets (with / without NORMALIZED_FORM, POS_ID, SURFACE, ...) in modes A/B/C: same boundaries as with all fields, same normalised forms when requested, well-formed numeral = one token with the expected rendering.  non-trivial = more than one character (parser) / at least one merge (pipeline)");
     if let Some(p) = &args.replay {
         let v: Value = serde_json::from_str(&std::fs::read_to_string(p).unwrap()).unwrap();
         let c = &v["case"];
         let want = c["want_err"].as_u64().map(|x| x as u8);
+        if c["kind"] == "sentence" {
+            let dict = numeric_dict(&args.work);
+            let mut r = Rng::new(args.seed);
+            sentence_case(&mut sink, &dict, &seg_from_json(&c["segments"]), false, &mut r, true);
+            sink.finish();
+            return;
+        }
         if c["kind"] == "canon" {
             canon_case(&mut sink, c["kinds"].as_u64().unwrap() as u32, c["styles"].as_u64().unwrap() as u32, c["n"].as_u64().unwrap(), true);
             sink.finish();
@@ -1227,7 +1379,7 @@ pub fn run(args: &Args) {
     // pipeline level
     let dict = numeric_dict(&args.work);
     let pres = ["", "京都", "に", "東京都に", "コーヒー", "1円", "12,345円と"];
-    let posts = ["", "に", "円", "京都", "カップ"];
+    let posts = ["", "に", "円", "京都", "カップ", "四半期", "一人", "千葉", "十分", "三角形", "九州", "万年筆", "百貨店", "〇印", "一人に", "四半期と"];
     for (t, e) in DIRECTED_OK.iter() {
         pipeline_case(&mut sink, &dict, "京都", t, "円", Some(e), false, "directed_ok", false);
         for (k, sub) in SUBSETS.iter().enumerate() {
@@ -1256,6 +1408,25 @@ pub fn run(args: &Args) {
         let sub = *rng.pick(&SUBSETS[..]);
         let mode = *rng.pick(&[Mode::A, Mode::B, Mode::C][..]);
         subset_case(&mut sink, &dict, pre, &text, post, Some(&n.expected), sub, mode, n.tag, false);
+    }
+    // several numerals in one sentence (state of the joining loop carried along the sentence)
+    for segs in [
+        vec![Seg::Bad("1,2,".into()), Seg::Word("と".into()), Seg::Good("1,000".into(), "1000".into()), Seg::Word("円".into())],
+        vec![Seg::Bad("1.2.".into()), Seg::Word("と".into()), Seg::Good("三.五〇".into(), "3.5".into()), Seg::Word("円".into())],
+        vec![Seg::Word("京都".into()), Seg::Bad(",".into()), Seg::Word("と".into()), Seg::Good("1,234,567".into(), "1234567".into()), Seg::Word("円".into())],
+        vec![Seg::Good("12".into(), "12".into()), Seg::Word("円と".into()), Seg::Bad(".".into()), Seg::Word("に".into()), Seg::Good("2万5,000.5".into(), "25000.5".into()), Seg::Word("円".into())],
+        vec![Seg::Good("第".into(), "第".into())].into_iter().filter(|_| false).collect(),
+        vec![Seg::Good("二".into(), "2".into()), Seg::Word("四半期".into())],
+        vec![Seg::Good("二十".into(), "20".into()), Seg::Word("一人".into())],
+        vec![Seg::Good("2万5千".into(), "25000".into()), Seg::Word("四半期".into()), Seg::Good("3".into(), "3".into()), Seg::Word("千葉".into())],
+    ] {
+        if !segs.is_empty() {
+            sentence_case(&mut sink, &dict, &segs, false, &mut rng, false);
+        }
+    }
+    for k in 0..args.n(400, 8000) {
+        let segs = gen_sentence(&mut rng);
+        sentence_case(&mut sink, &dict, &segs, k % 4 == 3, &mut rng, false);
     }
     for _ in 0..args.n(250, 4000) {
         let m = gen_malformed(&mut rng);
